@@ -439,7 +439,13 @@ func (e *env) apply(line string) string {
 		} else {
 			b = e.rtx.FetchBucket(m)
 		}
-		e.oracle((b != nil) == (nd != nil), "fetch-presence", "FetchBucket(meta of %q) found=%v, tree says %v", h.path, b != nil, nd != nil)
+		// a handle may dangle: its bucket, or a bucket above it, was removed through another handle, and whatever was created
+		// through the dangling handle afterwards lies in no bucket of the tree (the wallet never does that; outside the property).
+		// Judged only when the bucket's parent is in the tree.
+		parentThere := len(h.path) <= 1 || e.cur().at(h.path[:len(h.path)-1]) != nil
+		if parentThere {
+			e.oracle((b != nil) == (nd != nil), "fetch-presence", "FetchBucket(meta of %q) found=%v, tree says %v", h.path, b != nil, nd != nil)
+		}
 		if b == nil {
 			return "nil"
 		}
